@@ -183,7 +183,7 @@ func (statsH) HandleRPC(ctx context.Context, s stats.RPCStats) {
 	}
 }
 func (statsH) TagConn(ctx context.Context, _ *stats.ConnTagInfo) context.Context { return ctx }
-func (statsH) HandleConn(context.Context, stats.ConnStats)                      {}
+func (statsH) HandleConn(context.Context, stats.ConnStats)                       {}
 
 func (c *collectors) recordGRPC(ctx context.Context, i int, signal string, msg proto.Message) {
 	r := request{Coll: i, GRPC: true, Signal: signal, Header: map[string][]string{}}
